@@ -2,8 +2,8 @@
 import ast
 
 from ..index import AnalysisError, attr_chain, chain_prefixes, norm, own_nodes
-from ..query import (calls_in, call_name, is_value_yield, lines, mentions, falsy_edges, assigns,
-                     assigns_none)
+from ..query import (calls_in, call_name, is_value_yield, lines, mentions, falsy_edges, truthy_edges,
+                     assigns, assigns_none)
 from ..flow import reaching_defs
 from .common import (TLSCONN, TLSREC, fin_summary, nodes_with_call, consumes_of, getmsg_nodes,
                      dead_edge_labels, effective_tests, must_pass, senderror_desc, gate_table)
@@ -289,6 +289,51 @@ def rule_sig(ctx):
         ctx.check(R, ends_in_verify(h), h.qname, "%s returns only after an effective signature verify" % h.short,
                   "%s can return normally without a verified signature" % h.short, h.loc())
     ctx.require(len(helpers) >= 4, "C05.SIG: ServerKeyExchange verify helpers not found")
+
+
+def rule_auth13(ctx):
+    """AUTH13: the TLS 1.3 client authenticates the server by certificate unless the SERVER selected a
+    PSK; RESUMED: the handshake is reported as a resumption only when the server selected a PSK that
+    is not one of the configured external PSKs (the Checker is skipped for resumed sessions)."""
+    R = "C05.AUTH13"
+    fi = ctx.index.func(TLSCONN + "_clientTLS13Handshake")
+    g = ctx.an.cfg(fi)
+    binds = [n for n in g.nodes if assigns(n, "sr_psk")]
+    if len(binds) != 1 or norm(binds[0].ast.value) != "serverHello.getExtension(ExtensionType.pre_shared_key)":
+        raise AnalysisError("C05.AUTH13: `sr_psk` is no longer the ServerHello pre_shared_key extension, "
+                            "bound once, in _clientTLS13Handshake")
+    sinks = [n for n in g.nodes if is_value_yield(n)]
+    gates = sig_gates(ctx, fi, g, "certificate", sinks, cut=falsy_edges(g, "certificate"))
+    no_psk = truthy_edges(g, "sr_psk")          # explore only paths on which the server selected no PSK
+    ctx.require(len(no_psk) >= 2, "C05.AUTH13: tests of `sr_psk` not found in _clientTLS13Handshake")
+    must_pass(ctx, R, fi, g, [g.entry], sinks, gates,
+              "without a server-selected PSK completion passes a CertificateVerify gate",
+              "the TLS 1.3 client can complete a handshake in which the server selected no PSK without "
+              "receiving Certificate and verifying CertificateVerify (unauthenticated server accepted)",
+              cut=no_psk, start_after=False)
+    R = "C05.RESUMED"
+    seen = g.reach([g.entry], cut=no_psk)
+    sets = [n for n in g.nodes if assigns(n, "resuming")]
+    ctx.require(len(sets) >= 2, "C05.RESUMED: assignments of `resuming` not found in _clientTLS13Handshake")
+    for n in sets:
+        v = n.ast.value if isinstance(n.ast, ast.Assign) else None
+        const_false = isinstance(v, ast.Constant) and v.value is False
+        ctx.check(R, const_false or n.id not in seen, fi.qname,
+                  "`%s` only under a server-selected PSK" % norm(n.ast),
+                  "`resuming` can become true although the server selected no PSK: a full certificate "
+                  "handshake is then reported as resumed and the Checker is skipped", fi.loc(n.ast))
+    from ..condeval import ev, Unknown
+    ys = [n for n in sinks if "resumed_and_finished" in norm(n.ast)]
+    ctx.require(len(ys) >= 1, "C05.RESUMED: completion yield of _clientTLS13Handshake not found")
+    for y in ys:
+        val = [x for x in ast.walk(y.ast) if isinstance(x, ast.Yield)][0].value
+        try:
+            ok = ev(val, {"resuming": True}) == "resumed_and_finished" and ev(val, {"resuming": False}) == "finished"
+        except Unknown:
+            ok = False
+        ctx.check(R, ok, fi.qname, "completion token is `resumed_and_finished` exactly when `resuming`",
+                  "the client's completion token `%s` does not follow the `resuming` flag" % norm(val),
+                  fi.loc(y.ast))
 
 
 def rule_scheme(ctx):
@@ -586,6 +631,7 @@ def rule_named_gates(ctx):
 
 
 RULES = [
+    ("C05.AUTH13", "quick", rule_auth13),
     ("C05.GATES", "quick", rule_named_gates),
     ("C05.SIG", "quick", rule_sig),
     ("C05.SCHEME", "quick", rule_scheme),
